@@ -161,3 +161,13 @@ add("C18", "exploration",
     "The fake datastore implements only what the code uses (kind queries with equality/inequality filters in key order, strong consistency); "
     "eventual consistency and index lag of the real Datastore are outside the model. Ages are set 2 s away from the window boundary.",
     "property-based testing (rapid) against an independent set-valued specification; metamorphic and determinism relations; bounded-exhaustive enumeration in the thorough tier", "3/C18")
+add("C17", "exploration",
+    "Generated call histories (admin API calls by five kinds of caller, agent pending/request/response calls with every combination of "
+    "OAuth identity, backend id and request id class, end-user requests by owners, other users and anonymous callers) run against the three "
+    "services of the real App Engine proxy binary (-race) on a wire-level fake of datastore_v3/memcache/user, the harness playing the App "
+    "Engine front end; a reference access-control model gives the status class of every call (401/403/404/400/200), and the registry, the "
+    "Completed flags and the routing of stored requests are read back from the fake datastore after each step; clients must receive exactly "
+    "the response an authorised agent posted under their id. Histories are sampled.",
+    "The fake API implements only what the code uses; identity headers (X-AppEngine-*) and service routing are the platform's job and are "
+    "set by the harness, never taken from a simulated client; /cron/* is admin-only by app configuration and not exercised with other callers.",
+    "stateful property-based testing (rapid): generated call histories against a reference access-control model with store read-back", "3/C17")
